@@ -664,6 +664,10 @@ class SequenceOfEncoder(AbstractItemEncoder):
 
         wrapType = options.pop('wrapType', None)
 
+        # only the collection as a whole can be an OPTIONAL component,
+        # its elements never are: an empty element must not be dropped
+        options.pop('ifNotEmpty', None)
+
         for idx, component in enumerate(value):
             chunk = encodeFun(component, asn1Spec, **options)
 
